@@ -1,7 +1,8 @@
 """C03 — the ANSI stream written means exactly what the styled segments say.
 
 Correspondence: Lean model (Model/AnsiRender = Style._make_ansi_codes with its `_ansi` cache, Style.render,
-Segment.remove_color, Console._render_buffer; Model/AnsiTerm = independent SGR / OSC 8 interpreter) vs real rich,
+Segment.remove_color, Console._render_buffer; Model/AnsiTerm = independent character-level tokenizer and SGR / OSC 8
+interpreter) vs real rich,
 on *histories*: several consoles with different colour systems / NO_COLOR / terminal flags writing segment lists
 that share `Style` objects (the cache is state), interleaved with `copy()` / `update_link()` (which carry the
 cache over) and direct `Style.render` calls.  Four views of every history are compared:
@@ -9,6 +10,10 @@ cache over) and direct `Style.render` calls.  Four views of every history are co
   c03_toks      tokens (term.py tokenizer on the real output)              model == tokenize(real)
   c03_cells     interpreter run                                            Lean interp(model) == Python interp(real)
   c03_expected  the specification `expectedCells`                          Lean spec == Python oracle
+and two views that need no history:
+  c03_tokenize  the Lean tokenizer (the one `tokenize_reads_back` is about) on every clean real stream and on
+                synthetic SGR / OSC 8 streams                              Lean tokenize == term.py tokenize
+  c03_interp    the two interpreters on arbitrary token streams            Lean interp == lib_c03.Interp
 Direct evaluation (3d): the executable statement of the theorems on rich's own output — Python interp(tokenize(real))
 == Python oracle's expected cells, terminal left in its default state, no ESC when colour is disabled, no colour
 parameter under NO_COLOR, nothing of a control segment on a non-terminal.
@@ -1286,7 +1291,10 @@ MANIFEST = {
     "model incl. its float parameter satExc; Style.__hash__ agrees with __eq__ (C06) so the dict in remove_color is lookup by ==; the random "
     "link id is masked; legacy_windows only as the flag the code branches on; jupyter and real Windows consoles are outside the model; the "
     "crop path of console.print is tied with Segment.split_and_crop_lines (C13) as its specification. A disagreement in bytes that a terminal "
-    "shows identically is reported as no-failing-input-found with the note 'meaning preserved, bytes differ'. Trusted: Lean kernel; axioms "
+    "shows identically is reported as no-failing-input-found with the note 'meaning preserved, bytes differ'. Code variant flags (values "
+    "match /repo now; 1 = rich 9.10.0 as found): ANSI_CACHE_UNKEYED = 0 (fix c9ec5a8), STYLED_CONTROL_KEPT = 0 (fix 23674a1), "
+    "STD_VIA_PALETTE = 0 (C18's flag, fix 2cec9e1). No known finding is open for C03: both defects found are fixed, the check prints no "
+    "KNOWN-FINDING line. Trusted: Lean kernel; axioms "
     "propext/Classical.choice/Quot.sound; translator for the palettes; the correspondence harness (generators, term.py, lib_c03.Interp).",
     "design_ref": "DESIGN.md section 7, C03",
 }
